@@ -220,11 +220,8 @@ class FnAnalysis:
                     while it.k == 'call' and last(it.name) in ('into_iter', 'by_ref'):
                         it = strip(it.args[0])
                     if it.k == 'call' and last(it.name) == 'enumerate':
-                        inner = strip(it.args[0])
-                        while inner.k == 'call' and last(inner.name) in ('iter', 'into_iter'):
-                            inner = strip(inner.args[0])
-                        ll = self.length(inner, block, depth + 1)
-                        return (0, ll[1] - 1)
+                        cnt = self.iter_count(it.args[0], block, depth + 1)
+                        return (0, cnt[1] - 1)
             if b.k == 'field' and b.name in ('as Some', 'as Continue', 'as Ok'):
                 src = strip(b.args[0])
                 if src.k == 'call' and last(src.name) == 'next':
@@ -274,6 +271,41 @@ class FnAnalysis:
         if k in ('local', 'param'):
             return ty_range(e.ty)
         return ty_range(e.ty)
+
+    def iter_source(self, it):
+        """decode an iterator expression: (kind, collection expr, parameter) with kind in range / slice / chunks_exact /
+        chunks / windows; adapters that keep the element count (rev, by_ref, into_iter, iter, iter_mut, enumerate is
+        handled by the caller) are stripped"""
+        it = strip(it)
+        while it.k == 'call' and last(it.name) in ('into_iter', 'iter', 'iter_mut', 'rev', 'by_ref', 'copied', 'cloned') and it.args:
+            it = strip(it.args[0])
+        if it.k == 'aggr' and it.name == 'Range::Range':
+            return ('range', it, None)
+        if it.k == 'call' and last(it.name) in ('chunks_exact', 'chunks', 'windows', 'chunks_exact_mut', 'chunks_mut') and len(it.args) == 2:
+            kk = const_int(it.args[1])
+            return (last(it.name).replace('_mut', ''), it.args[0], kk)
+        return ('slice', it, None)
+
+    def iter_count(self, it, block, depth):
+        """interval of the number of elements an iterator yields"""
+        src = self.iter_source(it)
+        if src[0] == 'range':
+            a = self.iv(src[1].args[0], block, depth + 1)
+            b = self.iv(src[1].args[1], block, depth + 1)
+            return (max(0, b[0] - a[1]), max(0, b[1] - a[0]))
+        ll = self.length(src[1], block, depth + 1)
+        if src[0] == 'slice':
+            return ll
+        k = src[2]
+        if not k:
+            return (0, ll[1])
+        if src[0] == 'chunks_exact':
+            return (ll[0] // k, ll[1] // k if ll[1] < INF else INF)
+        if src[0] == 'chunks':
+            return ((ll[0] + k - 1) // k, (ll[1] + k - 1) // k if ll[1] < INF else INF)
+        if src[0] == 'windows':
+            return (max(0, ll[0] - k + 1), max(0, ll[1] - k + 1) if ll[1] < INF else INF)
+        return (0, ll[1])
 
     def counter(self, l):
         """invariant interval of a loop counter: all definitions are constants or `x = x@in +/- k`;
@@ -646,6 +678,19 @@ class FnAnalysis:
                 return self.length(e.args[0], block, depth + 1)
             if ln == 'pad':
                 return (64, INF)
+        if e.k == 'field' and e.args and e.name in ('0', '1'):
+            # (a, b) element of a zip: `.0` / `.1` is an element of the first / second zipped iterator
+            el = strip(e.args[0])
+            if el.k == 'field' and el.name == '0' and el.args and strip(el.args[0]).k == 'field' and strip(el.args[0]).name == 'as Some':
+                nx = strip(strip(el.args[0]).args[0])
+                if nx.k == 'call' and last(nx.name) == 'next' and nx.args:
+                    it = strip(nx.args[0])
+                    while it.k == 'call' and last(it.name) in ('into_iter', 'by_ref', 'rev', 'enumerate') and it.args:
+                        it = strip(it.args[0])
+                    if it.k == 'call' and last(it.name) == 'zip' and len(it.args) == 2:
+                        src = self.iter_source(it.args[int(e.name)])
+                        if src[0] in ('chunks_exact', 'windows') and src[2] is not None:
+                            return (src[2], src[2])
         if e.k == 'field' and e.args:
             # try(...) / unwrap of results carrying a vector
             inner = strip(e.args[0])
@@ -653,6 +698,12 @@ class FnAnalysis:
                 src = strip(inner.args[0])
                 if src.k == 'call' and last(src.name) == 'branch':
                     return self.length(src.args[0], block, depth + 1)
+                if src.k == 'call' and last(src.name) == 'next' and src.args:
+                    it = self.iter_source(src.args[0])
+                    if it is not None and it[0] in ('chunks_exact', 'windows', 'array_chunks') and it[2] is not None:
+                        return (it[2], it[2])        # every element of chunks_exact(k) / windows(k) has exactly k items
+                    if it is not None and it[0] == 'chunks' and it[2] is not None:
+                        return (1, it[2])
             n = array_len(e.ty)
             if n is not None:
                 return (n, n)
@@ -1084,6 +1135,12 @@ class FnAnalysis:
             i_s = self.cn.c(r)
             if i_s in ('each(Range::Range{0, len(%s)})' % self.cn.c(base),):
                 s.status, s.reason = 'OK', 'lemma FULL'
+                return
+            # KDF: x = kdf(_, N) has exactly N bytes for N >= 1, and a loop over 0..N is empty for N = 0
+            bs = strip(base)
+            m = re.match(r'^each\(Range::Range\{0, (.*)\}\)$', i_s)
+            if m and bs.k == 'call' and last(bs.name) == 'kdf' and len(bs.args) == 2 and self.cn.c(bs.args[1]) == m.group(1):
+                s.status, s.reason = 'OK', 'lemma KDF: index ranges over 0..N of kdf(_, N)'
                 return
             if self.sym_lt(r, base, b):
                 s.status, s.reason = 'OK', 'index < length (symbolic)'
